@@ -1,6 +1,7 @@
 package lab
 
 import (
+	"errors"
 	"bytes"
 	"context"
 	"crypto"
@@ -54,6 +55,8 @@ type NamedModule struct {
 
 // World is one in-process deployment.
 type World struct {
+	// WrapHmac, if set, is given to every device made by NewDevice
+	WrapHmac func(hash.Hash) hash.Hash
 	State   Backend
 	Mem     *MemState // nil when another backend is used
 	DIS     *fdo.DIServer[custom.DeviceMfgInfo]
@@ -238,12 +241,37 @@ type Device struct {
 	Cred   fdo.DeviceCredential
 	// CommonName is the subject the device asked for in its CSR
 	CommonName string
+	// WrapHmac, if set, wraps the device's HMAC objects (fault injection)
+	WrapHmac func(hash.Hash) hash.Hash
 }
 
 // Hmacs returns fresh HMAC instances under the device secret.
 func (d *Device) Hmacs() (hash.Hash, hash.Hash) {
-	return hmac.New(sha256.New, d.Secret), hmac.New(sha512.New384, d.Secret)
+	h256, h384 := hmac.New(sha256.New, d.Secret), hmac.New(sha512.New384, d.Secret)
+	if d.WrapHmac != nil {
+		return d.WrapHmac(h256), d.WrapHmac(h384)
+	}
+	return h256, h384
 }
+
+// FailingHmac wraps a device HMAC the way a hardware-backed one behaves (tpm/hmac.go): an error of the final step is
+// latched and shown only by Err(); Sum then returns its input unchanged. The first Sum after *failNext is set fails.
+type FailingHmac struct {
+	hash.Hash
+	FailNext *bool
+	err      error
+}
+
+func (f *FailingHmac) Sum(b []byte) []byte {
+	if f.FailNext != nil && *f.FailNext {
+		*f.FailNext = false
+		f.err = errors.New("SequenceComplete failed (lab)")
+		return b
+	}
+	return f.Hash.Sum(b)
+}
+func (f *FailingHmac) Reset()     { f.err = nil; f.Hash.Reset() }
+func (f *FailingHmac) Err() error { return f.err }
 
 // Tap observes and may alter traffic. Request/Response receive the message type and may
 // replace body and headers in place; returning a non-nil error aborts the exchange (lost message).
@@ -322,7 +350,7 @@ func (w *World) NewDeviceVia(ctx context.Context, k Kind, enc protocol.KeyEncodi
 	if _, err := rand.Read(secret); err != nil {
 		return nil, err
 	}
-	d := &Device{Kind: k, Enc: enc, Name: name, Key: key, Secret: secret}
+	d := &Device{Kind: k, Enc: enc, Name: name, Key: key, Secret: secret, WrapHmac: w.WrapHmac}
 	var sigAlg x509.SignatureAlgorithm
 	if k.PSS {
 		sigAlg = x509.SHA256WithRSAPSS
